@@ -139,17 +139,18 @@ class ParserOb(Obligation):
         Obligation.__init__(self, label or '%s/parse/K%d%s/%s' % (ev, K, ('[' + ','.join(first) + ']') if first else '', 'dbg' if oc else 'rel'))
         self.limits = limits or {}
         self.judge = judge
+        self.features = None          # cargo feature subset whose MIR is explored (None = default build)
 
     def run(self, ctx):
         ev = self.ev; K = self.K
-        prog = ctx.prog(self.oc)
-        nk = prog.enum_key('number::Number')
+        prog = ctx.prog(self.oc, self.features)
+        nk = prog.enum_key('number::Number') or prog.enum_key('Number')
         if nk: sem.set_number_variants(prog.enums[nk])
         tk = prog.enum_key(tok_key(ev)); fk = prog.enum_key(fn_key(ev))
         tkinds = prog.enums[tk]; fkinds = prog.enums[fk]
         e = eng_mod.Engine(prog, step_limit=self.limits.get('steps', 4000), timeout_ms=self.limits.get('timeout_ms', 20000), seed=ctx.seed)
         profile = 'dev' if self.oc else 'release'
-        runner = ctx.runner(profile)
+        runner = ctx.runner(profile, self.features)
         res = dict(name=self.name, paths=0, obligations=0, discharged=0, confirmed=[], inconclusive=[], replayed=0, replay_mismatch=[], samples=[],
                    ok_paths=0, err_paths=0, unspellable=0)
         ph, phc = placeholder_value(ev)
@@ -201,12 +202,12 @@ class ParserOb(Obligation):
             eng.wr(st, a[0], adt(TOKZ, None, [pos + 1]))
             st.steps += 1
             return [(True, some(tokens[pos] if pos < K else eof))]
-        e.stubs[r'eval_%s::tokenizer::Tokenizer(::<[^>]*>)?::new$' % ev] = stub_new
-        e.stubs[r'<eval_%s::tokenizer::Tokenizer(<[^>]*>)? as (std::iter::)?Iterator>::next$' % ev] = stub_next
-        newfn = prog.resolve("eval_%s::parser::Parser::<'_>::new" % ev)
-        parsefn = prog.resolve("eval_%s::parser::Parser::<'_>::parse" % ev)
-        if newfn is None or parsefn is None:
-            res['inconclusive'].append('%s: cannot resolve Parser::new / parse' % self.name); return self.fin(res, e, 0)
+        try:
+            e.fn_stubs[prog.entry(ev, 'tok_new')] = stub_new
+            e.fn_stubs[prog.entry(ev, 'tok_next')] = stub_next
+            newfn = prog.entry(ev, 'parser_new'); parsefn = prog.entry(ev, 'parser_parse')
+        except KeyError as ex:
+            res['inconclusive'].append('%s: %s' % (self.name, ex)); return self.fin(res, e, 0)
         impl_ok = {}      # kind sequence -> (tree description, matched?)
         vocab = gr.vocabulary(tkinds, fkinds)
         if self.first: vocab_first = [v for v in vocab if v[0] in self.first]
